@@ -1,5 +1,6 @@
 import KawinV.Proto
 import KawinV.Model.MassBalance
+import KawinV.Gen.C01MassBalance
 /-! driver verbs for the mass-balance model (Float instance) -/
 namespace KawinV.Drv.C01
 open KawinV.Proto KawinV.MB
@@ -23,9 +24,19 @@ def balance : P String := do
   let ins ← lst phaseIn
   pure (outStr (massBalance minDens minComp x0 prev ins))
 
+/-- mb.gen N(2x3 flat) R(2x3 flat) xb(2x4x2 flat) vma vmb(2) vfac(2) x0(2) → the regenerated definitions on Float -/
+def gen : P String := do
+  let N ← flts; let R ← flts; let xb ← flts; let vma ← flt; let vmb ← flts; let vfac ← flts; let x0 ← flts
+  let Na := N.toArray; let Ra := R.toArray; let xa := xb.toArray
+  let fN : Nat → Nat → Float := fun p i => Na.getD (p*3+i) 0.0
+  let fR : Nat → Nat → Float := fun p i => Ra.getD (p*3+i) 0.0
+  let fx : Nat → Nat → Nat → Float := fun p j e => xa.getD (p*8+j*2+e) 0.0
+  pure (flist (KawinV.Gen.C01.mb_all fN fR fx vma (fun p => vmb.getD p 0.0) (fun p => vfac.getD p 0.0) (fun e => x0.getD e 0.0)))
+
 def handle (verb : String) : Option (P String) :=
   match verb with
   | "mb.balance" => some balance
+  | "mb.gen" => some gen
   | _ => none
 
 end KawinV.Drv.C01
